@@ -395,6 +395,58 @@ pub struct CtTrig {
 }
 
 // ---------------------------------------------------------------------------------------------
+// Emission from inside the frame ("game logic" in `Update`)
+
+#[derive(Clone, Debug)]
+pub enum Em {
+    S { ev: SEv, mode: SendMode, seq: u32, target: Option<Entity> },
+    C { ev: CEv, seq: u32, target: Option<Entity> },
+}
+
+#[derive(Resource, Default)]
+pub struct PendingEmits(pub Vec<Em>);
+
+fn emit_pending(world: &mut World) {
+    let list = std::mem::take(&mut world.resource_mut::<PendingEmits>().0);
+    for e in list {
+        match e {
+            Em::S { ev, mode, seq, target } => match ev {
+                SEv::Ord => {
+                    world.send_event(ToClients { mode, event: SeOrd { seq, ent: target } });
+                }
+                SEv::Unord => {
+                    world.send_event(ToClients { mode, event: SeUnord { seq } });
+                }
+                SEv::Unrel => {
+                    world.send_event(ToClients { mode, event: SeUnrel { seq } });
+                }
+                SEv::Ind => {
+                    world.send_event(ToClients { mode, event: SeInd { seq } });
+                }
+                SEv::Trig => match target {
+                    Some(t) => world.server_trigger_targets(ToClients { mode, event: StTrig { seq } }, t),
+                    None => world.server_trigger(ToClients { mode, event: StTrig { seq } }),
+                },
+            },
+            Em::C { ev, seq, target } => match ev {
+                CEv::Ord => {
+                    world.send_event(CeOrd { seq });
+                }
+                CEv::Map => {
+                    if let Some(t) = target {
+                        world.send_event(CeMap { seq, ent: t });
+                    }
+                }
+                CEv::Trig => match target {
+                    Some(t) => world.client_trigger_targets(CtTrig { seq }, t),
+                    None => world.client_trigger(CtTrig { seq }),
+                },
+            },
+        }
+    }
+}
+
+// ---------------------------------------------------------------------------------------------
 // Probes (harness systems inside the apps)
 
 /// One observation of a server event by client-side (or local) game logic.
@@ -706,7 +758,8 @@ pub fn build_app(cfg: &AppCfg, role: Role) -> App {
     app.insert_resource(TimeUpdateStrategy::ManualDuration(Duration::from_millis(16)));
     register_pool(&mut app, cfg, role);
     app.init_resource::<Probe>();
-    app.add_systems(Update, probe_events);
+    app.init_resource::<PendingEmits>();
+    app.add_systems(Update, (emit_pending, probe_events).chain());
     if role != Role::ServerOnly {
         app.add_systems(Update, probe_client_events);
     }
